@@ -218,7 +218,14 @@ func aggCase(w *casefile.Writer, s string, cfg bool) {
 		t, _ := legTokenCoq(lit)
 		impl, implText = "(Ok (Some "+t+"))", lit.String()
 	}
-	w.Count("agg:result:" + implText[:min(len(implText), 3)])
+	switch {
+	case res.isErr:
+		w.Count("agg:result:error")
+	case lit == nil:
+		w.Count("agg:result:nil")
+	default:
+		w.Count("agg:result:literal")
+	}
 	w.Add(fmt.Sprintf("CAgg %s %s %s %s %s", coqBytes(s), classTable(s, nil), lowTable(s), casefile.Bool(cfg), impl),
 		"agg-filter", !res.isErr && lit != nil, in, implText)
 }
@@ -446,7 +453,7 @@ func deepChild(depth int, target, shape string) {
 }
 
 func legacyCases(w *casefile.Writer, r *rng.R, tier string) {
-	nFrag, nExpr, nAggFrag, stride := 1500, 500, 500, 5
+	nFrag, nExpr, nAggFrag, stride := 1000, 400, 300, 6
 	deep := []int{40, 300}
 	if tier == "thorough" {
 		nFrag, nExpr, nAggFrag, stride = 25000, 6000, 6000, 1
